@@ -1284,7 +1284,11 @@ class Explorer:
                 inputs = self._current_inputs()
             except BaseException:
                 pass
-            self._violate("path budget exhausted: " + str(e), self.budget_key, inputs, None, kind="budget")
+            if self.budget_is_violation:
+                # suspected non-termination of the code under test: replayed concretely under a wall-clock limit
+                self._violate("path budget exhausted: " + str(e), self.budget_key, inputs, None, kind="budget")
+            else:
+                self._inconc("budget", "path exceeded its step / wall budget", z3.BoolVal(True), required=self.ob_required)
         finally:
             self._armed = False
             signal.setitimer(signal.ITIMER_REAL, 0)
@@ -1292,6 +1296,8 @@ class Explorer:
 
     budget_key = "budget"
     max_budget_hits = 3
+    budget_is_violation = False     # True for obligations whose subject is termination (k-d tree construction)
+    ob_required = True
 
     def _backtrack(self):
         """prepare the stack for the next path; False when the tree is exhausted"""
